@@ -251,6 +251,15 @@ func selfcertReplay(args []string) {
 			}
 
 			msd["deltaHash"] = b64(refMultihash(alg, dig[:n]))
+		case "sd_deltahash_respelled":
+			r := respell(refModelHash(delta, alg))
+			if r == refModelHash(delta, alg) {
+				// (a SHA-512 multihash leaves no unused bits: the nearest thing is a truncated digest)
+				canon, _ := refJCS(generic(delta))
+				r = b64(refMultihash(alg, refHash(alg, canon)[:63]))
+			}
+
+			msd["deltaHash"] = r
 		case "sd_recoverycommitment":
 			msd["recoveryCommitment"] = conc.commitment(9, c.H)
 		case "sd_anchororigin":
